@@ -133,7 +133,93 @@ func epochPool(base, epoch uint64) (ins []poolInput, tmpls []string) {
 	return
 }
 
+// genSiblingSweep: the first two runs of every block of poolEpochRuns runs decode
+// and query one full vector and ALL its near-collisions - every single metric
+// changed to every other code, every PAIR of metrics changed to every combination
+// of codes, the other CVSS 3.x version - one of the two runs in forward, the other
+// in reverse order.  A cache or memo that confuses two such siblings (a key that
+// omits a field, packs two fields into overlapping bits, hashes too coarsely)
+// serves whichever was seen first, so the two processes disagree on at least one
+// of them; the driver's cross-process comparison sees it.  Complete enumeration of
+// the 1- and 2-metric neighbourhood of a sampled vector.
+func genSiblingSweep(d *RunDesc, reverse bool) {
+	epoch := d.RunIndex / poolEpochRuns
+	r := newRng(simrt.Mix(simrt.Mix(d.BaseSeed, 0x51b), epoch))
+	k := []int{KV3Env, KV3Env, KV2Env, KV3Temporal, KV2Temporal, KV3Base, KV2Base, KV3Env}[r.intn(8)]
+	var defs []metricDef
+	if kindIsV2(k) {
+		defs = append(defs, v2BaseDefs...)
+		if kindLevel(k) >= 1 {
+			defs = append(defs, v2TempDefs...)
+		}
+		if kindLevel(k) >= 2 {
+			defs = append(defs, v2EnvDefs...)
+		}
+	} else {
+		defs = append(defs, metricDef{"CVSS", []string{"3.1", "3.0"}})
+		defs = append(defs, v3BaseDefs...)
+		if kindLevel(k) >= 1 {
+			defs = append(defs, v3TempDefs...)
+		}
+		if kindLevel(k) >= 2 {
+			defs = append(defs, v3EnvDefs...)
+		}
+	}
+	base := make([]string, len(defs))
+	for i, df := range defs {
+		base[i] = pick(r, df.vals)
+	}
+	render := func(vals []string) string {
+		toks := make([]string, len(defs))
+		for i, df := range defs {
+			toks[i] = df.name + ":" + vals[i]
+		}
+		return strings.Join(toks, "/")
+	}
+	vecs := []string{render(base)}
+	for i := range defs {
+		for _, vi := range defs[i].vals {
+			if vi == base[i] {
+				continue
+			}
+			v := append([]string{}, base...)
+			v[i] = vi
+			vecs = append(vecs, render(v))
+			for j := i + 1; j < len(defs); j++ {
+				for _, vj := range defs[j].vals {
+					if vj == base[j] {
+						continue
+					}
+					w := append([]string{}, v...)
+					w[j] = vj
+					vecs = append(vecs, render(w))
+				}
+			}
+		}
+	}
+	if reverse {
+		for a, b := 0, len(vecs)-1; a < b; a, b = a+1, b-1 {
+			vecs[a], vecs[b] = vecs[b], vecs[a]
+		}
+	}
+	d.MapSeed = simrt.Mix(d.Seed, 3)
+	d.MapPolicy = simrt.MapPermuted
+	d.Sched.Policy = simrt.PolicyNone
+	ops := make([]Op, 0, 2*len(vecs))
+	for i, v := range vecs {
+		ops = append(ops, Op{K: "dec", Kind: k, Vec: v, Dst: i + 1})
+		ops = append(ops, Op{K: "obs", Obj: &Ref{I: i + 1}, Obs: "all"})
+	}
+	d.Tasks = [][]Op{ops}
+	d.CrossCap = 2*len(vecs) + 10
+	d.Note = fmt.Sprintf("sibling sweep over %d near-collisions of one %s vector, reverse=%v", len(vecs), kindNames[k], reverse)
+}
+
 func genC15(d *RunDesc, tier string) {
+	if d.RunIndex%poolEpochRuns < 2 {
+		genSiblingSweep(d, d.RunIndex%poolEpochRuns == 1)
+		return
+	}
 	wl := newRng(simrt.Mix(d.Seed, 1))
 	fl := newRng(simrt.Mix(d.Seed, 4))
 	d.MapSeed = simrt.Mix(d.Seed, 3)
@@ -315,6 +401,10 @@ var crossVerbose = os.Getenv("CVSSSIM_CROSS_VERBOSE") != ""
 func runC15(d *RunDesc, res *RunResult) {
 	cfg := d.simConfig()
 	ctx := newTaskCtx(nil)
+	crossCap := 600
+	if d.CrossCap > 0 {
+		crossCap = d.CrossCap
+	}
 	first := map[string]string{}
 	firstAt := map[string]int{}
 	repeatsNonAdjacent := 0
@@ -397,7 +487,7 @@ func runC15(d *RunDesc, res *RunResult) {
 					} else {
 						first[key] = result
 						firstAt[key] = i
-						if len(res.Stats.CrossKeys) < 600 {
+						if len(res.Stats.CrossKeys) < crossCap {
 							res.Stats.CrossKeys = append(res.Stats.CrossKeys, [2]uint64{hashString(key), hashString(result)})
 							if crossVerbose {
 								res.Stats.CrossDetail = append(res.Stats.CrossDetail, [3]string{fmt.Sprint(hashString(key)), clip(key, 500), clip(result, 900)})
